@@ -52,9 +52,13 @@ func (o *Obs) Fail(idx int, what string, input interface{}) {
 	}
 }
 
-func (o *Obs) Count(key string) {
+func (o *Obs) Count(key string, by ...int) {
 	v, _ := o.Histogram[key].(int)
-	o.Histogram[key] = v + 1
+	n := 1
+	if len(by) > 0 {
+		n = by[0]
+	}
+	o.Histogram[key] = v + n
 }
 
 func (o *Obs) Write(dir string) {
@@ -123,10 +127,24 @@ func SortedKeys(m map[string]interface{}) []string {
 // WriteCases writes work/<id>/cases.v: header, `Definition cases := [...]`, and the fixed footer that
 // prints the list of mismatching case indices.
 func WriteCases(dir, header, caseType string, cases []string, mismatchFn string) {
-	if len(cases) > 600 && filepath.Base(dir) != ".shard" {
+	if filepath.Base(dir) != ".shard" {
 		// large runs are split into files that bin/check evaluates in parallel (and that Coq's parser can take)
-		WriteCasesSharded(dir, header, caseType, cases, mismatchFn, 400)
-		return
+		total := 0
+		for _, c := range cases {
+			total += len(c)
+		}
+		if len(cases) > 600 {
+			WriteCasesSharded(dir, header, caseType, cases, mismatchFn, 400)
+			return
+		}
+		if total > 400_000 && len(cases) >= 16 {
+			shards := (total + 199_999) / 200_000
+			if shards > 16 {
+				shards = 16
+			}
+			WriteCasesSharded(dir, header, caseType, cases, mismatchFn, (len(cases)+shards-1)/shards)
+			return
+		}
 	}
 	var sb strings.Builder
 	sb.WriteString(header)
